@@ -142,8 +142,8 @@ def specStep (s : S) (toks : List String) (impl : String) : S × String :=
                else specEnd s y complete err
       ({ s with yielded := y, dead := true }, v)
     else
-      ({ s with yielded := y }, firstBad [(ts.length == k + 1, "Each went on after f returned false"),
-                                           (specTok s y complete err == "ok", specTok s y complete err)])
+      ({ s with yielded := y },
+        if ts.length != k + 1 then "bad Each went on after f returned false" else specTok s y complete err)
   | ["rest"] =>
     let r := unhex (kv impl "rest")
     let rerr := kv impl "resterr"
